@@ -4,7 +4,7 @@
    Round 2 (polish): an [Example] of non-vacuity beside every theorem with hypotheses (data in
    StackProofs2.v) and, from C13_histories_compose on, the stack discipline for arbitrary interleavings
    (frame rule, matching push), the top-to-bottom view, and the pool-level constructors/operations. *)
-From Verif Require Import Base Sorter Value Seq Coll Pool PoolFrame StackProofs StackProofs2 PoolInv.
+From Verif Require Import Base Sorter Value Seq Coll Pool PoolFrame StackProofs StackProofs2 PoolInv StackImpl StackImplProofs.
 Local Open Scope nat_scope.
 
 Theorem C13_never_exceeds_capacity :
@@ -203,6 +203,38 @@ Example C13_pool_invariant_example :
   pool_ok (run (VInt 0 0) [] ops).
 Proof. split; [vm_compute; reflexivity|]. apply C13_pool_invariant_is_inductive. constructor. Qed.
 
+(* Round 3: stack.go's own shape (StackImpl.v: a capacity and a List; AddValue = capacity test + InsertValue(0, v),
+   RemoveTop = IsEmpty test + RemoveValue(1), through the List methods of Seq.v) IS the stack machine above, for
+   every history; so the code-shaped stack never exceeds its capacity *)
+Theorem C13_impl_stack_over_list_is_the_stack_machine :
+  forall (A : Type) (zero : A) (ops : list (kop A)) (s : stk A),
+  irun A zero s ops =
+  ({| s_cap := s_cap s; s_values := fst (krun A (s_cap s) (s_values s) ops) |}, snd (krun A (s_cap s) (s_values s) ops)).
+Proof. exact irun_is_krun. Qed.
+
+Theorem C13_impl_never_exceeds_capacity :
+  forall (A : Type) (zero : A) (ops : list (kop A)) (s : stk A),
+  length (s_values s) <= s_cap s ->
+  length (s_values (fst (irun A zero s ops))) <= s_cap (fst (irun A zero s ops)) /\
+  s_cap (fst (irun A zero s ops)) = s_cap s.
+Proof. exact impl_never_exceeds_capacity. Qed.
+
+Theorem C13_impl_constructors_within_capacity :
+  forall (A : Type) (dflt : nat) (l : list A),
+  length (s_values (s_make_from dflt l)) <= s_cap (s_make_from dflt l) /\
+  s_cap (s_make_from dflt l) = Nat.max dflt (length l) /\
+  s_values (s_make_from dflt l) = l /\
+  s_make_with_capacity 0 = (Panic : out (stk A)) /\
+  (forall cap : nat, cap <> 0 -> s_make_with_capacity cap = Ret {| s_cap := cap; s_values := ([] : list A) |}).
+Proof. exact constructors_within_capacity. Qed.
+
+Example C13_impl_example :
+  length (s_values (s_make_from 3 ex_stack)) <= s_cap (s_make_from 3 ex_stack) /\
+  irun Z 0%Z (s_make_from 3 ex_stack) ex_kops =
+    ({| s_cap := 3; s_values := [7]%Z |},
+     [KPanic Z; KVal Z 3%Z; KUnit Z; KPanic Z; KVal Z 5%Z; KVal Z 2%Z; KVal Z 1%Z; KPanic Z; KUnit Z]).
+Proof. split; [vm_compute; lia|vm_compute; reflexivity]. Qed.
+
 Print Assumptions C13_never_exceeds_capacity.
 Print Assumptions C13_push_on_full_panics_unchanged.
 Print Assumptions C13_push_adds_on_top.
@@ -221,3 +253,6 @@ Print Assumptions C13_pool_make_stack.
 Print Assumptions C13_pool_stack_ops_are_the_stack_machine.
 Print Assumptions C13_pool_invariant.
 Print Assumptions C13_pool_invariant_is_inductive.
+Print Assumptions C13_impl_stack_over_list_is_the_stack_machine.
+Print Assumptions C13_impl_never_exceeds_capacity.
+Print Assumptions C13_impl_constructors_within_capacity.
